@@ -5,7 +5,9 @@ package main
 
 import (
 	"fmt"
+	"go/types"
 	"math/big"
+	"strings"
 )
 
 type endKind int
@@ -475,7 +477,14 @@ type mergeGroup struct {
 	out  *outcome
 }
 
-func shapeKey(v Value) string {
+// shapeKey describes the structure of a result value: two results with the same key differ only
+// in scalar/byte terms and can be merged field by field. entry is the allocation stamp at the
+// start of the nested call: younger objects are private to the call and are merged deeply, older
+// ones are compared by identity. "?" anywhere means "cannot be merged".
+func (in *Interp) shapeKey(v Value, entry int64, depth int) string {
+	if depth > 12 {
+		return "?"
+	}
 	switch x := v.(type) {
 	case *Term:
 		if x.sort == SBool {
@@ -488,26 +497,81 @@ func shapeKey(v Value) string {
 		if x.T == nil {
 			return "nil"
 		}
-		if _, ok := x.V.(*ErrObj); ok {
+		if types.Implements(x.T, in.P.errIface) {
 			return "err"
 		}
-		if p, ok := x.V.(*Ptr); ok {
-			if e, ok := (*p.P).(*ErrObj); ok {
-				_ = e
-				return "err"
+		return "I<" + x.T.String() + ":" + in.shapeKey(x.V, entry, depth+1) + ">"
+	case Tuple:
+		var sb strings.Builder
+		sb.WriteString("(")
+		for _, e := range x {
+			sb.WriteString(in.shapeKey(e, entry, depth+1))
+			sb.WriteString(",")
+		}
+		sb.WriteString(")")
+		return sb.String()
+	case Struct:
+		var sb strings.Builder
+		sb.WriteString("{")
+		for _, e := range x {
+			sb.WriteString(in.shapeKey(e, entry, depth+1))
+			sb.WriteString(",")
+		}
+		sb.WriteString("}")
+		return sb.String()
+	case Array:
+		var sb strings.Builder
+		sb.WriteString("[")
+		for _, e := range x {
+			sb.WriteString(in.shapeKey(e, entry, depth+1))
+			sb.WriteString(",")
+		}
+		sb.WriteString("]")
+		return sb.String()
+	case *Ptr:
+		if x.P == nil {
+			return "nilp"
+		}
+		if x.Stamp > entry {
+			if _, isRx := (*x.P).(*RegexObj); isRx {
+				return fmt.Sprintf("ext%p", x.P)
 			}
+			return "&" + in.shapeKey(*x.P, entry, depth+1)
+		}
+		return fmt.Sprintf("ext%p", x.P)
+	case *Slice:
+		if x.Nil {
+			return "nils"
+		}
+		if x.Stamp > entry || x.Len == 0 {
+			var sb strings.Builder
+			fmt.Fprintf(&sb, "sl%d/%d[", x.Len, x.Cap)
+			for i := 0; i < x.Len; i++ {
+				sb.WriteString(in.shapeKey(x.Arr[x.Off+i], entry, depth+1))
+				sb.WriteString(",")
+			}
+			sb.WriteString("]")
+			return sb.String()
+		}
+		return fmt.Sprintf("extsl%p/%d/%d", x.Arr, x.Off, x.Len)
+	case *Map:
+		if x.Nil {
+			return "nilm"
+		}
+		if x.Stamp > entry {
+			return "?"
+		}
+		return fmt.Sprintf("extm%p", x)
+	case *Closure:
+		if x.Fn == nil && x.Builtin == nil {
+			return "nilf"
+		}
+		if len(x.Env) == 0 && x.Fn != nil {
+			return "fn:" + x.Fn.String()
 		}
 		return "?"
-	case Tuple:
-		s := "("
-		for _, e := range x {
-			k := shapeKey(e)
-			if k == "?" {
-				return "?"
-			}
-			s += k + ","
-		}
-		return s + ")"
+	case *ErrObj:
+		return "err"
 	case nil:
 		return "void"
 	case Float:
@@ -541,12 +605,54 @@ func (in *Interp) mergeVals(c *Term, a, b Value) Value {
 			out[i] = in.mergeVals(c, x[i], y[i])
 		}
 		return out
+	case Struct:
+		y := b.(Struct)
+		out := make(Struct, len(x))
+		for i := range x {
+			out[i] = in.mergeVals(c, x[i], y[i])
+		}
+		return out
+	case Array:
+		y := b.(Array)
+		out := make(Array, len(x))
+		for i := range x {
+			out[i] = in.mergeVals(c, x[i], y[i])
+		}
+		return out
 	case Iface:
-		return a // nil or opaque error: either representative will do
-	case Float:
+		y := b.(Iface)
+		if x.T == nil || types.Implements(x.T, in.P.errIface) {
+			return a // nil or opaque error: either representative will do
+		}
+		return Iface{T: x.T, V: in.mergeVals(c, x.V, y.V)}
+	case *Ptr:
+		y := b.(*Ptr)
+		if x.P == nil || x.P == y.P {
+			return a
+		}
+		v := in.mergeVals(c, *x.P, *y.P)
+		return &Ptr{P: &v, Stamp: in.newStamp(), Obj: x.Obj}
+	case *Slice:
+		y := b.(*Slice)
+		if x.Nil {
+			return a
+		}
+		if x.Len > 0 && len(x.Arr) > 0 && len(y.Arr) > 0 && &x.Arr[0] == &y.Arr[0] && x.Off == y.Off {
+			return a
+		}
+		arr := make([]Value, x.Cap)
+		for i := 0; i < x.Cap; i++ {
+			if i < x.Len {
+				arr[i] = in.mergeVals(c, x.Arr[x.Off+i], y.Arr[y.Off+i])
+			} else if x.Off+i < len(x.Arr) {
+				arr[i] = x.Arr[x.Off+i]
+			}
+		}
+		return &Slice{Arr: arr, Len: x.Len, Cap: x.Cap, Stamp: in.newStamp()}
+	case Float, *Map, *Closure, *ErrObj:
 		return a
 	}
-	panic("mergeVals: unexpected value")
+	panic(fmt.Sprintf("mergeVals: unexpected value %T", a))
 }
 
 type bottomT struct{}
